@@ -410,6 +410,42 @@ func c04run(idx int) run.Result {
 			}
 		}
 	}
+	// Several requests with LARGE replies and a protocol error behind them, all delivered by one read: whatever the
+	// server buffers on the way out, what it has written when it closes the connection is a sequence of COMPLETE
+	// frames - one per complete request.
+	if idx%5 == 2 {
+		r5 := rng.New(c04.seed, rng.Str("C04big"), uint64(idx))
+		k := 2 + r5.Intn(5)
+		size := rng.Pick(r5, []int{1500, 3000, 4000, 4096, 5000, 9000})
+		big := resp.Bulk(r5.Bytes(size))
+		rec := double.NewRec()
+		rec.Script = func(cl *double.Call) (*redis.Message, error, bool) { return double.ToMessage(big), nil, true }
+		var reqs []resp.Value
+		for i := 0; i < k; i++ {
+			reqs = append(reqs, resp.Cmd("GET", fmt.Sprint("big", i)))
+		}
+		bstream, _ := encodeReqs(reqs)
+		tail := rng.Pick(r5, []string{"?junk\r\n", "$x\r\n", "*2\r\n$3\r\nGET\r\n!", "$3\r\nabcdef", "*x\r\n"})
+		pb := runPipe(newServer(rec), reqs, [][]byte{append(append([]byte{}, bstream...), tail...)}, sconn.Script{End: sconn.EOF})
+		res.Count("big_reply_pipelines_before_a_protocol_error", 1)
+		if pb.TimedOut {
+			res.Inconclusive = "watchdog"
+			return res
+		}
+		fr, _, rest, bad, _ := resp.DecodeAll(pb.Snap.Out)
+		nBig := 0
+		for _, f := range fr {
+			if resp.Equal(f, big) {
+				nBig++
+			}
+		}
+		if pb.Panic != "" || bad != "" || rest != 0 || nBig != k {
+			res.Violate("C04:big-replies-before-protocol-error", "everything the server writes on a connection is a concatenation of complete, valid RESP values: exactly one reply per complete request (then possibly one error reply)",
+				fmt.Sprintf("%d GETs answered with %d-byte values and %q behind them in one read: %d complete frames (%d of them the value), %d bytes of an incomplete frame left, bad=%q panic=%q, connection closed=%v", k, size, tail, len(fr), nBig, rest, bad, pb.Panic, pb.Snap.Closed),
+				desc(map[string]any{"requests": k, "value_size": size, "tail": tail, "out_len": len(pb.Snap.Out)}))
+			return res
+		}
+	}
 	if idx%151 == 0 {
 		res.Sample = desc(map[string]any{"out_hex": hexClip(out, 200)})
 	}
